@@ -28,12 +28,12 @@ ASSUMPTIONS = ["skill standard deviations are 0", "schedules are realised throug
 LEVEL_TEXT = ("Schedule search: the only real nondeterminism of the library (set iteration order) is put under the control of the "
               "seed and varied; results under different schedules, addresses, interpreters and call histories must be bit-identical.")
 LEVEL_NOTE = "Trusted: rank seam realises every order for <= 8 objects; dump covers every public log; sampling of schedules unless n<=5 in thorough."
-PROBES = ["mode_perm", "mode_plain", "mode_again", "mode_history", "mode_ids", "schedules_compared", "same_step_zero_FF", "same_step_zero_SF",
+PROBES = ["mode_perm", "mode_pert", "pert_tables_compared", "mode_plain", "mode_again", "mode_history", "mode_ids", "schedules_compared", "same_step_zero_FF", "same_step_zero_SF",
           "fresh_interpreter_compared", "model_structure_compared", "id_object_twin_compared", "history_default_args_call", "history_insert_absence", "global_state_checked"]
 
 
 def budget(tier):
-    return 2500 if tier == "quick" else 500000
+    return 3000 if tier == "quick" else 500000
 
 
 def gen(rng, tier):
@@ -44,8 +44,36 @@ def gen(rng, tier):
         focus["same_step"] = rng.random() < 0.7
     if rng.random() < 0.3:
         focus["density"] = 0.5
+    pert = rng.random() < 0.25
+    if pert:
+        # PERT times only (cheap): dense mixed-kind graphs under many schedules
+        focus["kinds"] = [0, 1, 2, 3] if rng.random() < 0.5 else [0, 0, 2, 2, rng.choice([1, 3])]
+        focus["density"] = rng.choice([0.4, 0.5, 0.65])
     spec = C.forward_spec(rng, tier, focus)
     mode = G.wchoice(rng, [("perm", 6), ("plain", 1.5), ("again", 1.5), ("history", 1.5), ("ids", 1.2)])
+    if pert:
+        spec["mode"] = "pert"
+        m_ = spec["model"]
+        n_ = len(m_["tasks"])
+        if rng.random() < 0.6:
+            for t_ in m_["tasks"]:
+                t_["work"] = float(rng.choice([1, 1, 2, 3, 5, 8, 10]))
+        if n_ >= 4 and rng.random() < 0.6:
+            # a finish-to-start backbone with side inputs and side outputs of any kind joining it at different depths
+            order = list(range(n_))
+            rng.shuffle(order)
+            nb = rng.randint(3, max(3, n_ - 1))
+            back, side = sorted(order[:nb]), order[nb:]
+            deps = [[back[i], back[i + 1], 0 if rng.random() < 0.85 else rng.choice([1, 2, 3])] for i in range(nb - 1)]
+            for s_ in side:
+                inp = rng.random() < 0.6  # a side input of the backbone (else a side output): no cycle either way
+                if rng.random() < 0.6:
+                    m_["tasks"][s_]["work"] = float(rng.choice([5, 8, 10, 13]))
+                for o_ in set(rng.choice(back[1:] if inp else back[:-1]) for _ in range(rng.randint(1, 2))):
+                    deps.append([s_, o_, rng.choice([0, 1, 2, 2, 2, 3])] if inp else [o_, s_, rng.choice([0, 1, 2, 3])])
+            m_["deps"] = deps
+        spec["perms"] = [G.gen_ranks(rng, spec["model"], "perm") for _ in range(24)]
+        return spec
     if mode == "ids" and (spec["profile"].get("same_ids") or spec["profile"].get("prefix_ids")):
         mode = "perm"
     spec["mode"] = mode
@@ -79,6 +107,7 @@ def gen(rng, tier):
                 {"op": "backward_defaults", "p": rng.randint(0, 1)},
                 {"op": "refused_call", "p": rng.randint(0, 1), "backward": rng.random() < 0.6},
                 {"op": "getters", "p": rng.randint(0, 1)},
+                {"op": "charts", "p": rng.randint(0, 1), "auto": rng.random() < 0.6},
             ]))
         spec["ops"] = ops
     return spec
@@ -136,6 +165,15 @@ def one_run(spec, ranks, cfg=None, plain=False):
         tr.built = b
         return tr
     return scen.run_forward(spec["model"], ranks, cfg or spec["cfg"], want_snap=False)
+
+
+def pert_table(spec, ranks):
+    """The PERT times (est, eft, lst, lft) of every task of a freshly built and initialised model: a pure function of the model."""
+    b = B.build(spec["model"], ranks)
+    out = D.call(lambda: (b.project.initialize(), b.project.workflow.update_PERT_data(0)))
+    tab = {t.ID: [t.est, t.eft, t.lst, t.lft] for t in b.tasks}
+    tab["_outcome"] = [out.ok, out.exc_type]
+    return tab
 
 
 def outcome_dump(tr):
@@ -202,7 +240,15 @@ def run(spec):
                 r.update(dict(zip(ids_c, pc)))
                 perms.append(r)
             res.count("exhaustive_schedule_sets")
+        pert_ref = pert_table(spec, spec.get("ranks"))
         for r in perms:
+            pdiff = D.first_diff(pert_ref, pert_table(spec, r))
+            res.count("pert_tables_compared")
+            if pdiff is not None:
+                res.add("schedule", "C09.pert_times_schedule_dependent.kinds_" + tags,
+                        "same model, two set-iteration schedules %s vs %s: the PERT times after initialize() and update_PERT_data(0) differ at %s: "
+                        "%r vs %r" % (spec.get("ranks"), r, pdiff[0], pdiff[1], pdiff[2]), None)
+                break
             tr = one_run(spec, r)
             compared += 1
             d = outcome_dump(tr)
@@ -214,6 +260,16 @@ def run(spec):
                         % (spec.get("ranks"), r, sorted(attrs)[:6], diff[0], diff[1], diff[2]), None)
                 break
         res.count("schedules_compared", compared)
+    elif mode == "pert":
+        pert_ref = pert_table(spec, spec.get("ranks"))
+        for r in spec.get("perms", []):
+            pdiff = D.first_diff(pert_ref, pert_table(spec, r))
+            res.count("pert_tables_compared")
+            if pdiff is not None:
+                res.add("schedule", "C09.pert_times_schedule_dependent.kinds_" + tags,
+                        "same model, two set-iteration schedules %s vs %s: the PERT times after initialize() and update_PERT_data(0) differ at %s: "
+                        "%r vs %r" % (spec.get("ranks"), r, pdiff[0], pdiff[1], pdiff[2]), None)
+                break
     elif mode == "ids":
         # workers and facilities get the library's default IDs (uuid4).  Two builds draw different IDs; after renaming the
         # IDs by position the results must be identical (a result must not depend on what the random IDs happen to be)
@@ -346,6 +402,21 @@ def run_history(spec, res, dref, intact=None):
             res.count("history_refused_call")
             if intact is not None and op["p"] == 0:
                 intact(p, "after a refused %s call" % ("backward_simulate" if op.get("backward") else "simulate"))
+        elif kind == "charts":
+            # the matplotlib chart helpers (they draw; they must not change the model)
+            try:
+                import matplotlib
+                matplotlib.use("Agg")
+                import matplotlib.pyplot as plt
+                D.call(lambda: p.workflow.create_simple_gantt(view_auto_task=bool(op.get("auto"))))
+                D.call(lambda: p.product.create_simple_gantt())
+                D.call(lambda: p.organization.create_simple_gantt())
+                plt.close("all")
+                res.count("history_chart_helpers")
+            except ImportError:
+                pass
+            if intact is not None and op["p"] == 0:
+                intact(p, "after the chart helpers were called")
         elif kind == "getters":
             C.call_getters(p)
             if intact is not None and op["p"] == 0:
